@@ -134,6 +134,8 @@ fn oracle(log: &[Obs], stream_dropped_at: Option<usize>) -> V {
         .filter_map(|(i, o)| if let Obs::CheckAllowed { opts, ans, .. } = o { Some((i, *opts, ans.positive().is_some())) } else { None })
         .collect();
     let busy = busy_intervals(log);
+    // the producer never runs ahead of the consumer, also while requests are being answered (C13's clause; same log)
+    crate::props::c13::emission_order(log)?;
     // (2) truthfulness
     let mut used: Vec<usize> = vec![];
     for r in &reqs {
@@ -300,6 +302,20 @@ fn oracle(log: &[Obs], stream_dropped_at: Option<usize>) -> V {
     Ok(())
 }
 
+/// C13's part "emissions-under-control-requests": the one-request exploration of this module judged
+/// by the emission-order oracle only.
+pub fn run_emissions(ctx: &RunCtx, tier: Tier) -> RunOut {
+    let mut out = run(ctx, tier, 1);
+    if let Some(v) = out.violation.as_ref() {
+        // keep only C13's own clauses
+        let k = &v.key;
+        if !(k.contains("before the consumer took") || k.contains("lost wake-up") || k.contains("deadlock")) {
+            out.violation = None;
+        }
+    }
+    out
+}
+
 #[derive(Clone, Copy, PartialEq)]
 enum DropMode {
     None,
@@ -307,9 +323,9 @@ enum DropMode {
     Stream,
 }
 
-fn run(ctx: &RunCtx, tier: Tier, two: bool) -> RunOut {
+fn run(ctx: &RunCtx, tier: Tier, n_total: usize) -> RunOut {
     let drop_mode = DropMode::None;
-    let n_clients = if two { 1 + choose("clients", 2) } else { 1 };
+    let n_clients = if n_total > 1 { 1 + choose("clients", n_total) } else { 1 };
     let mut s = Setup::new(Mode::Start);
     s.blocking = Blocking::all();
     s.select = SelectMode::Script;
@@ -318,8 +334,9 @@ fn run(ctx: &RunCtx, tier: Tier, two: bool) -> RunOut {
         refused: 0,
     };
     let mut e = Exec::new(s, Box::new(d), Store::default());
-    for _c in 0..n_clients {
-        let n_req = if two && n_clients == 1 { 2 } else { 1 };
+    for c in 0..n_clients {
+        // requests dealt round-robin to the clients: 2 -> [2] | [1,1]; 3 -> [3] | [2,1] | [1,1,1]
+        let n_req = (0..n_total).filter(|i| i % n_clients == c).count();
         let reqs = (0..n_req).map(|_| [Src::Scheduled, Src::OnDemand][choose("options", 2)]).collect();
         e.add_client(reqs);
     }
@@ -486,29 +503,96 @@ fn run_with_budget(ctx: &RunCtx, mode: DropMode) -> RunOut {
     }
 }
 
+/// "A request wakes a waiting machine without any timer firing": default scheduling up to a chosen
+/// step, then the request is made and from then on no timer is ever fired; the request must still
+/// be answered (and truthfully).
+fn run_no_timer(ctx: &RunCtx) -> RunOut {
+    let mut s = Setup::new(Mode::Start);
+    s.blocking = Blocking::all();
+    s.select = [SelectMode::Identity, SelectMode::Reverse][choose("select_order", 2)];
+    let d = D {
+        reboot_refusals: 1 + choose("reboot_refusals", 2),
+        refused: 0,
+    };
+    let mut e = Exec::new(s, Box::new(d), Store::default());
+    let o1 = [Src::Scheduled, Src::OnDemand][choose("options", 2)];
+    let o2 = [Src::Scheduled, Src::OnDemand][choose("options", 2)];
+    e.add_client(vec![o1, o2]);
+    let inject_at = choose("inject_at", 40);
+    let opts = SchedOpts::default();
+    let is_gate = |a: &Action| matches!(a, Action::Complete(_, OpKind::Gate));
+    let is_timer = |a: &Action| matches!(a, Action::Complete(_, OpKind::TimerFor) | Action::Complete(_, OpKind::TimerUntil));
+    let mut step = 0;
+    let _ = e.run_with(&opts, inject_at, |_ex, en| {
+        step += 1;
+        en.iter().position(|a| !is_gate(a))
+    });
+    // from here on: no timer fires; gates (the client's requests) are opened as soon as nothing else is enabled
+    let mut fired_after = 0usize;
+    let mut guard = 0;
+    while guard < 800 && !e.client_done(0) {
+        guard += 1;
+        let en = e.enabled(&opts);
+        let pick = en.iter().position(|a| !is_gate(a) && !is_timer(a)).or_else(|| en.iter().position(is_gate));
+        match pick {
+            Some(i) => e.perform(en[i]),
+            None => break,
+        }
+        let _ = &mut fired_after;
+    }
+    let log = e.log();
+    let reqs = requests(&log);
+    let kinds: Vec<String> = reqs.iter().map(|r| r.reply.as_ref().map(|x| x.1.clone()).unwrap_or("-".into())).collect();
+    let mut out = RunOut::new(format!("no-timer:{}", kinds.join("+")), true, trace::digest(&log));
+    if ctx.want_trace {
+        out.trace = Some(trace::trace_json(&log));
+    }
+    if !e.client_done(0) || reqs.len() < 2 || reqs.iter().any(|r| r.reply.is_none()) {
+        return out.fail(
+            "request not answered unless a timer fires",
+            format!("requests {reqs:?}; no timer was fired after step {inject_at}"),
+        );
+    }
+    if !e.lost_wakes.is_empty() {
+        return out.fail("lost wake-up", format!("{:?}", e.lost_wakes));
+    }
+    match oracle(&log, None) {
+        Ok(()) => out,
+        Err((k, m)) => out.fail(k, m),
+    }
+}
+
 fn parts(tier: Tier) -> Vec<PartDef> {
-    let one = |name: &str, d: usize, free: &[&'static str], two: bool| {
+    let one = |name: &str, d: usize, free: &[&'static str], n_total: usize| {
         let free_v: Vec<&'static str> = free.to_vec();
         PartDef::new(
             name,
             Cfg::new(&format!("C11/{name}")).dev(d).free(&free_v),
-            json!({"clients": if two { "1-2 (two requests in total)" } else { "1 (one request)" }, "options": ["scheduled", "on-demand"], "machine_script": ["throttled", "no update", "update + install + reboot wait (refused once)"],
+            json!({"clients": format!("1-{n_total} ({n_total} request(s) in total, dealt round-robin)"), "options": ["scheduled", "on-demand"], "machine_script": ["throttled", "no update", "update + install + reboot wait (refused once)"],
                    "blocking_points": ["timers", "http", "plan", "install", "progress", "reboot"], "select_order": "choice point at every select! poll",
                    "horizon_steps": tier.pick(40, 50), "exhaustive_choices": free_v, "deviation_bound_on_the_rest": d}),
-            move |ctx| run(ctx, tier, two),
+            move |ctx| run(ctx, tier, n_total),
         )
     };
     let mut v = match tier {
         Tier::Quick => vec![
-            one("one-request", 1, &["options", "inject", "policy.check", "server.update", "reboot_refusals"], false),
-            one("two-requests", 0, &["clients", "options", "inject", "policy.check", "server.update"], true),
+            one("one-request", 1, &["options", "inject", "policy.check", "server.update", "reboot_refusals"], 1),
+            one("two-requests", 0, &["clients", "options", "inject", "policy.check", "server.update"], 2),
         ],
         Tier::Thorough => vec![
-            one("one-request", 3, &["options", "inject", "reboot_refusals"], false),
-            one("one-request-all-scripts", 1, &["options", "inject", "policy.check", "server.update", "reboot_refusals"], false),
-            one("two-requests", 1, &["clients", "options", "inject", "reboot_refusals"], true),
+            one("one-request", 3, &["options", "inject", "reboot_refusals"], 1),
+            one("one-request-all-scripts", 1, &["options", "inject", "policy.check", "server.update", "reboot_refusals"], 1),
+            one("two-requests", 1, &["clients", "options", "inject", "reboot_refusals"], 2),
+            one("three-requests", 0, &["clients", "options", "inject", "server.update"], 3),
         ],
     };
+    v.push(PartDef::new(
+        "wake-without-timer",
+        Cfg::new("C11/wake-without-timer"),
+        json!({"requests": "two by one client, options exhaustive", "first_request_at": "every step 0..39 of the default schedule", "after_that": "no timer is ever fired", "select_order": ["identity", "reverse"], "policy_answers": 2, "server_answers": 2, "reboot_refusals": [1, 2],
+               "oracle": "both requests are answered (truthfully) although no timer fires"}),
+        move |ctx| run_no_timer(ctx),
+    ));
     v.push(PartDef::new(
         "drop-all-handles",
         Cfg::new("C11/drop-all-handles"),
